@@ -184,13 +184,13 @@ func init() {
 	Register(&Check{ID: "C08", Level: "exploration", Run: runC08, Replay: func(c *Ctx, w *Witness) (string, string) {
 		var cs c08Case
 		var in struct {
-			Text        string
-			Priors      [][]string
-			Kinds       []string
-			Size        string
-			Variant     string
-			Mode        string
-			CB          bool
+			Text    string
+			Priors  [][]string
+			Kinds   []string
+			Size    string
+			Variant string
+			Mode    string
+			CB      bool
 		}
 		jsonUnmarshal(w.Input, &in)
 		cs = c08Case{text: in.Text, priors: in.Priors, kinds: in.Kinds, size: in.Size, mode: in.Mode, cb: in.CB}
